@@ -58,6 +58,7 @@ class _SamplerPlugin:
 
 
 def scn_get_mask(T, case):
+    PFX = case.get("prefix", "C09")
     f = T.func(ME, "_get_mask")
     N, mask, gi = case["N"], case["mask"], case["gi"]
     marr = None if mask is None else np.array(mask, dtype=bool)
@@ -67,13 +68,13 @@ def scn_get_mask(T, case):
         got = f(idx, garr, marr)
         want = [(mask is None or mask[i]) and (gi is None or gi[i] == idx) for i in range(N)]
         if got is None:
-            T.prove("C09.get_mask.none_means_all_variables", mask is None and gi is None)
+            T.prove(PFX + ".get_mask.none_means_all_variables", mask is None and gi is None)
             continue
-        T.prove("C09.get_mask.is_variable_mask_and_sampler_assignment", [bool(b) for b in got] == want)
-        T.prove("C09.get_mask.never_selects_a_fixed_variable", all((mask is None or mask[i]) for i in range(N) if bool(got[i])))
+        T.prove(PFX + ".get_mask.is_variable_mask_and_sampler_assignment", [bool(b) for b in got] == want)
+        T.prove(PFX + ".get_mask.never_selects_a_fixed_variable", all((mask is None or mask[i]) for i in range(N) if bool(got[i])))
         seen += np.array([bool(b) for b in got], dtype=int)
     if gi is not None:
-        T.prove("C09.get_mask.samplers_are_disjoint", bool(np.all(seen <= 1)))
+        T.prove(PFX + ".get_mask.samplers_are_disjoint", bool(np.all(seen <= 1)))
     # _init_samplers hands exactly these masks, and the one generator, to the sampler plug-ins
     if T.symbolic:
         sh = T._sh
@@ -91,8 +92,8 @@ def scn_get_mask(T, case):
     cls(cfg, None, None, pm)
     rng = log[0][2] if log else None
     for idx, m, r in log:
-        T.prove("C09.init_samplers.sampler_mask_inside_variable_mask", m is None and mask is None or (m is not None and all((mask is None or mask[i]) for i in range(N) if m[i])))
-        T.prove("C09.init_samplers.same_generator_for_every_sampler", r is rng and r is not None)
+        T.prove(PFX + ".init_samplers.sampler_mask_inside_variable_mask", m is None and mask is None or (m is not None and all((mask is None or mask[i]) for i in range(N) if m[i])))
+        T.prove(PFX + ".init_samplers.same_generator_for_every_sampler", r is rng and r is not None)
 
 
 # ------------------------------------------------------------------------------------ completed variables / nested update
@@ -387,6 +388,69 @@ def scn_mask_canonical(T, case):
         T.prove("C09.mask.validated_mask_is_a_boolean_array_of_the_given_truth_values", cfg.mask.dtype == np.bool_ and cfg.mask.tolist() == [True, False, True], repr(given))
 
 
+# ------------------------------------------------------------------------------------ the starting vector of an optimizer step
+def cases_step_start(tier):
+    for tr in (False, True):
+        yield "default-start/transform=%s" % tr, {"tr": tr}
+
+
+def scn_step_start(T, case):
+    """'Their starting value': without explicit variables an optimizer step starts from the configured initial values AS VALIDATED
+    (the validation has already mapped them to the optimizer domain), so the fixed entries that EnsembleOptimizer keeps are
+    exactly those - also when a variable transform is configured."""
+    MOPT = "ropt.plugins.plan.optimizer"
+    started = []
+
+    class FakeEnsembleEvaluator:
+        def __init__(self, config, transforms, evaluator, plugin_manager):
+            self.args = (config, transforms)
+
+    class FakeEnsembleOptimizer:
+        is_parallel = False
+
+        def __init__(self, **kw):
+            self.kw = kw
+
+        def start(self, variables):
+            started.append((variables, self.kw))
+            return "finished"
+
+    stubs = {(MOPT, "EnsembleEvaluator"): FakeEnsembleEvaluator, (MOPT, "EnsembleOptimizer"): FakeEnsembleOptimizer}
+    restore = None
+    if T.symbolic:
+        sh = T.shadow([MOPT], stubs)
+        cls = T.under_contract(sh, MOPT, "DefaultOptimizerStep", stubs)
+        T.under_contract(sh, MOPT, "DefaultOptimizerStep._run_optimizer", stubs)
+    else:
+        import importlib
+
+        real = importlib.import_module(MOPT)
+        restore = (real, {k[1]: getattr(real, k[1]) for k in stubs})
+        for k, v in stubs.items():
+            setattr(real, k[1], v)
+        cls = real.DefaultOptimizerStep
+    try:
+        N = 3
+        x0 = T.real("validated_initial_values", (N,))
+        scale = T.real("scale", (), lo=1.5, hi=4.0)
+        transforms = types.SimpleNamespace(variables=types.SimpleNamespace(to_optimizer=lambda v: v / scale, from_optimizer=lambda v: v * scale)) if case["tr"] else None
+        events = []
+        plan = types.SimpleNamespace(emit_event=events.append, optimizer_context=types.SimpleNamespace(evaluator=None, plugin_manager=None), aborted=False, abort=lambda: None)
+        step = cls(plan)
+        step._config = types.SimpleNamespace(variables=types.SimpleNamespace(initial_values=x0, mask=np.array([True, False, True])))
+        step._transforms = transforms
+        step._nested_optimization = None
+        step._metadata = None
+        step._run_optimizer(None)
+    finally:
+        if restore:
+            for k, v in restore[1].items():
+                setattr(restore[0], k, v)
+    T.prove("C09.step.optimizer_started_once", len(started) == 1)
+    if started:
+        T.prove("C09.step.default_start_is_the_validated_initial_vector", T.same(started[0][0], x0))
+
+
 SCENARIOS = [
     Scenario("magnitudes_of_fixed_variables_are_finite", _scn_fix, cases_fix_fixed, {"quick": 5, "thorough": 30}),
     Scenario("get_mask_init_samplers", scn_get_mask, cases_get_mask, {"quick": 1, "thorough": 1}),
@@ -396,6 +460,7 @@ SCENARIOS = [
     Scenario("evaluator_requests", scn_requests, cases_requests, {"quick": 5, "thorough": 40}),
     Scenario("scipy_arguments", scn_scipy, cases_scipy, {"quick": 3, "thorough": 20}),
     Scenario("mask_is_canonical", scn_mask_canonical, cases_mask_canonical, {"quick": 1, "thorough": 1}),
+    Scenario("optimizer_step_default_start", scn_step_start, cases_step_start, {"quick": 2, "thorough": 5}),
 ]
 
 MANIFEST = {
